@@ -2,6 +2,7 @@
 from __future__ import annotations
 
 import logging
+from copy import copy
 
 from .const import *
 from .exceptions import InverterError, RequestFailedException, RequestRejectedException
@@ -491,7 +492,7 @@ class ET(Inverter):
         self._sensors_battery2 = self.__all_sensors_battery2
         self._sensors_meter = self.__all_sensors_meter
         self._sensors_mppt = self.__all_sensors_mppt
-        self._settings: dict[str, Sensor] = {s.id_: s for s in self.__all_settings}
+        self._settings: dict[str, Sensor] = {s.id_: copy(s) for s in self.__all_settings}
         self._sensors_map: dict[str, Sensor] | None = None
 
     @staticmethod
@@ -549,7 +550,7 @@ class ET(Inverter):
         # Check and add EcoModeV2 settings added in (ETU fw 19)
         try:
             await self._read_from_socket(self._read_command(47547, 6))
-            self._settings.update({s.id_: s for s in self.__settings_arm_fw_19})
+            self._settings.update({s.id_: copy(s) for s in self.__settings_arm_fw_19})
         except RequestRejectedException as ex:
             if ex.message == ILLEGAL_DATA_ADDRESS:
                 logger.debug("EcoModeV2 settings not supported, switching to EcoModeV1.")
@@ -561,7 +562,7 @@ class ET(Inverter):
         # Check and add Peak Shaving settings added in (ETU fw 22)
         try:
             await self._read_from_socket(self._read_command(47589, 6))
-            self._settings.update({s.id_: s for s in self.__settings_arm_fw_22})
+            self._settings.update({s.id_: copy(s) for s in self.__settings_arm_fw_22})
         except RequestRejectedException as ex:
             if ex.message == ILLEGAL_DATA_ADDRESS:
                 logger.debug("PeakShaving setting not supported, disabling it.")
